@@ -88,6 +88,18 @@ class CFG:
     def stmts(self):
         return [n for n in self.nodes.values() if n.ast is not None]
 
+    def node_containing(self, expr: ast.AST) -> int | None:
+        """id of the flow-graph node at which `expr` is evaluated (the header of a compound statement, or the simple statement)"""
+        for n in self.nodes.values():
+            if n.ast is None:
+                continue
+            if n.ast is expr:
+                return n.id
+            h = header_expr(n.ast)
+            if h is not None and any(x is expr for x in ast.walk(h)):
+                return n.id
+        return None
+
 
 class _Builder:
     def __init__(self, func: ast.FunctionDef):
